@@ -9,7 +9,7 @@ import ast
 import pathlib
 
 KINDS = ["reformat", "rename-locals", "add-statement", "sql-whitespace", "rename+add", "messages", "strip-local-annotations",
-         "return-temp", "reorder-keywords", "annotate-locals", "hoist-condition"]
+         "return-temp", "reorder-keywords", "annotate-locals", "hoist-condition", "swap-if-else"]
 
 
 class LocalRenamer(ast.NodeTransformer):
@@ -233,6 +233,30 @@ class HoistCondition(ast.NodeTransformer):
         return node
 
 
+NEG_OP = {ast.Is: ast.IsNot, ast.IsNot: ast.Is, ast.Eq: ast.NotEq, ast.NotEq: ast.Eq, ast.In: ast.NotIn, ast.NotIn: ast.In,
+          ast.Lt: ast.GtE, ast.GtE: ast.Lt, ast.LtE: ast.Gt, ast.Gt: ast.LtE}
+
+
+def negate(test):
+    """The simplest expression equivalent to `not <test>`."""
+    if isinstance(test, ast.UnaryOp) and isinstance(test.op, ast.Not):
+        return test.operand
+    if isinstance(test, ast.Compare) and len(test.ops) == 1 and type(test.ops[0]) in NEG_OP:
+        return ast.Compare(left=test.left, ops=[NEG_OP[type(test.ops[0])]()], comparators=test.comparators)
+    return ast.UnaryOp(op=ast.Not(), operand=test)
+
+
+class SwapIfElse(ast.NodeTransformer):
+    """`if T: A else: B` becomes `if not T: B else: A` (elif chains keep their shape)."""
+
+    def visit_If(self, node):
+        self.generic_visit(node)
+        if node.orelse and not (len(node.orelse) == 1 and isinstance(node.orelse[0], ast.If)) and not (len(node.body) == 1 and isinstance(node.body[0], ast.If)):
+            node.test = negate(node.test)
+            node.body, node.orelse = node.orelse, node.body
+        return node
+
+
 class SqlWhitespace(ast.NodeTransformer):
     """Collapse runs of whitespace inside SQL string constants (line-comment free ones only)."""
 
@@ -275,6 +299,9 @@ def make_variant(kind, dst, repo="/repo"):
             ast.fix_missing_locations(tree)
         elif kind == "hoist-condition":
             tree = HoistCondition().visit(tree)
+            ast.fix_missing_locations(tree)
+        elif kind == "swap-if-else":
+            tree = SwapIfElse().visit(tree)
             ast.fix_missing_locations(tree)
         elif kind == "messages":
             tree = EditMessages().visit(tree)
